@@ -72,6 +72,32 @@ def c_bits(p, e):
     return '(uint64_t)(u%s)%s' % (PRIM[p][1], e)
 
 
+def c_expr_from_bits(p, v):
+    return {'i8': '(int8_t)(%s)', 'i16': '(int16_t)(%s)', 'i32': '(int32_t)(%s)', 'i64': '(int64_t)(%s)', 'f32': 'f32from((uint32_t)(%s))',
+            'f64': 'f64from(%s)', 'ptr': '(void*)(uintptr_t)(%s)'}[p] % v
+
+
+def c_rot_init(shape):
+    """brace initialiser of the shape whose leaf k is leaf k+1 of *p (through its bit pattern)"""
+    lv = leaves(shape, 's', '(*p)')
+    n = len(lv)
+    it = iter(range(n))
+
+    def leaf():
+        k = next(it)
+        src = lv[(k + 1) % n]
+        return c_expr_from_bits(lv[k][0], c_bits(src[0], src[2]))
+    parts = []
+    for m in shape:
+        if isinstance(m, str):
+            parts.append(leaf())
+        elif m[0] == 'arr':
+            parts.append('{ %s }' % ', '.join(leaf() for _ in range(m[1])))
+        else:
+            parts.append('{ %s }' % ', '.join(leaf() for _ in m[1]))
+    return '{ %s }' % ', '.join(parts)
+
+
 def shapes(tier, seed):
     prims = ['i8', 'i16', 'i32', 'i64', 'f32', 'f64', 'ptr']
     out = [[p] for p in prims]
@@ -109,7 +135,9 @@ def main():
     c = ['#include <stdint.h>', '#include <string.h>', '',
          'static uint32_t f32bits(float f) { uint32_t b; memcpy(&b, &f, 4); return b; }',
          'static uint64_t f64bits(double f) { uint64_t b; memcpy(&b, &f, 8); return b; }',
-         'static uint64_t mix(uint64_t a, uint64_t v) { return (a << 7 | a >> 57) ^ v; }', '']
+         'static uint64_t mix(uint64_t a, uint64_t v) { return (a << 7 | a >> 57) ^ v; }',
+         'static float f32from(uint32_t b) { float f; memcpy(&f, &b, 4); return f; }',
+         'static double f64from(uint64_t b) { double f; memcpy(&f, &b, 8); return f; }', '']
     meta = {}
     for i, sh in enumerate(shapes(tier, seed)):
         lv = leaves(sh)
@@ -180,6 +208,25 @@ def main():
                '\treturn c_callret_%d(mk%d, %s) == sum%d(3, mk%d(%s), 4)\n}' % (i, i, vs, i, i, vs), '']
         c.append('uint64_t c_callarg_%d(uint64_t (*cb)(int32_t, S%d, int64_t), %s, int32_t pre, int64_t post) { return cb(pre, mk%d(%s), post); }' % (i, i, cvdecl, i, vs))
         c.append('uint64_t c_callret_%d(S%d (*cb)(%s), %s) { return sum%d(3, cb(%s), 4); }' % (i, i, ', '.join(['uint64_t'] * n), cvdecl, i, vs))
+        # 5. x = f(&x): the C function reads its argument while it builds the by-value result;
+        # the result must replace *p only after the call (through a pointer and for a package-level variable)
+        if n >= 2:
+            go += ['//go:linkname c_rot_%d C.c_rot_%d' % (i, i), 'func c_rot_%d(p *S%d) S%d' % (i, i, i),
+                   'func rot%d(s S%d) (r S%d) {' % (i, i, i)]
+            rl = leaves(sh, 'r', 'r')
+            for k in range(n):
+                src = lv[(k + 1) % n]
+                go.append('\t%s = %s' % (rl[k][1], go_from_bits(lv[k][0], go_bits(src[0], src[1]))))
+            go += ['\treturn\n}',
+                   'func inplace%d(p *S%d) { *p = c_rot_%d(p) }' % (i, i, i),
+                   'var g%d S%d' % (i, i),
+                   'func CheckInPlace%d(%s) bool {' % (i, vdecl),
+                   '\ts := mk%d(%s)' % (i, vs), '\twant := sum%d(1, rot%d(s), 2)' % (i, i),
+                   '\tinplace%d(&s)' % i,
+                   '\tg%d = mk%d(%s)' % (i, i, vs), '\tg%d = c_rot_%d(&g%d)' % (i, i, i),
+                   '\treturn sum%d(1, s, 2) == want && sum%d(1, g%d, 2) == want\n}' % (i, i, i), '']
+            c.append('S%d c_rot_%d(const S%d *p) { return (S%d)%s; }' % (i, i, i, i, c_rot_init(sh)))
+            meta['CheckInPlace%d' % i] = {'params': [['v%d' % k, 'uint64'] for k in range(n)], 'result': 'bool', 'shape': desc + ' x = f(&x)'}
         c.append('')
         pv = [['v%d' % k, 'uint64'] for k in range(n)]
         meta['CheckArg%d' % i] = {'params': pv + [['pre', 'int32'], ['post', 'int64']], 'result': 'bool', 'shape': desc}
